@@ -5,7 +5,7 @@ int_t in_ncols, in_perm_c[CAP], in_Acolptr[CAP+1], in_Arowind[NZ], in_Ucolbeg[CA
 int_t in_Lnzbeg[CAP+1], in_Lnzend[CAP+1], in_Lrowind[LC], in_Lrowbeg[CAP+1], in_Lrowend[CAP+1], in_col_to_sup[CAP+1], in_supbeg[CAP+1], in_supend[CAP+1];
 @T@ in_Aval[NZ], in_Uval[NZ], in_Lval[LUC];
 @R@ g_result;
-@R@ @r@lamch_(char *c) { return @sfmin@; }
+double @r@lamch_(char *c) { return @sfmin@; }
 void h_growth(void) {
   in_A.Store = &in_Astore; in_Astore.nzval = in_Aval; in_Astore.rowind = in_Arowind; in_Astore.colptr = in_Acolptr; in_A.nrow = in_A.ncol;
   in_U.Store = &in_Ustore; in_Ustore.nzval = in_Uval; in_Ustore.rowind = in_Urowind; in_Ustore.colbeg = in_Ucolbeg; in_Ustore.colend = in_Ucolend;
